@@ -977,3 +977,35 @@ V("C17", "twin-cy-factored", UCF, "    cy = c_length * (np.cos(alpha) - np.cos(b
 V("C07", "twin-atom-dict-comprehension", DHPY, "            local_dict = {}\n            for atom in residue.atoms:\n                local_dict[atom.name] = atom.index\n            residue_dict[residue.index] = local_dict", "            residue_dict[residue.index] = {atom.name: atom.index for atom in residue.atoms}", None)
 V("C07", "atom-dict-shared-residue-level", DHPY, "        for residue in chain.residues:\n            local_dict = {}", "        local_dict = {}\n        for residue in chain.residues:", "C07-R4")
 V("C07", "dihedral-orthogonal-from-last-frame", DHPY, "            orthogonal = np.allclose(traj.unitcell_angles, 90)", "            orthogonal = np.allclose(traj.unitcell_angles[-1], 90)", "C07-R1")
+
+# ---------------------------------------------------------------- C16
+MOMC = "mdtraj/geometry/src/moments.cpp"
+DRC = "mdtraj/geometry/src/dridkernels.cpp"
+SHP = "mdtraj/geometry/shape.py"
+CTC = "mdtraj/geometry/contact.py"
+RDFP = "mdtraj/geometry/rdf.py"
+THP = "mdtraj/geometry/thermodynamic_properties.py"
+NMRP = "mdtraj/nmr/scalar_couplings.py"
+V("C16", "third-moment-update-coefficient", MOMC, "    self->_M3 += term1 * delta_n * (self->_n - 2) - 3 * delta_n * self->_M2;", "    self->_M3 += term1 * delta_n * (self->_n - 1) - 3 * delta_n * self->_M2;", "C16-R1")
+V("C16", "second-moment-updated-before-third", MOMC, "    self->_M3 += term1 * delta_n * (self->_n - 2) - 3 * delta_n * self->_M2;\n    self->_M2 += term1;", "    self->_M2 += term1;\n    self->_M3 += term1 * delta_n * (self->_n - 2) - 3 * delta_n * self->_M2;", "C16-R1")
+V("C16", "variance-bessel", MOMC, "    return self->_M2 / self->_n;", "    return self->_M2 / (self->_n - 1);", "C16-R1")
+V("C16", "twin-mean-update-spelled-out", MOMC, "    self->_u += delta_n;", "    self->_u = self->_u + delta / self->_n;", None)
+V("C16", "drid-pushes-distance", DRC, "        moments_push(&onlinemoments, 1.0/sqrt((double) d));", "        moments_push(&onlinemoments, sqrt((double) d));", "C16-R2")
+V("C16", "drid-third-without-root", DRC, "    moments[2] = cbrt(moments_third(&onlinemoments));", "    moments[2] = moments_third(&onlinemoments);", "C16-R2")
+V("C16", "drid-partners-keep-self", "mdtraj/geometry/drid.pyx", "        partners_l.append(set_atom_indices - bonds[i] - set([j]))", "        partners_l.append(set_atom_indices - bonds[i])", "C16-R2")
+V("C16", "asphericity-two-thirds", SHP, "    b = pm[:, 2] - (pm[:, 0] + pm[:, 1]) / 2.0", "    b = pm[:, 2] - (pm[:, 0] + pm[:, 1]) / 3.0", "C16-R3")
+V("C16", "acylindricity-wrong-pair", SHP, "    c = pm[:, 1] - pm[:, 0]", "    c = pm[:, 2] - pm[:, 1]", "C16-R3")
+V("C16", "anisotropy-square-of-sum", SHP, "    kappa2 = 1.5 * np.square(pm).sum(axis=1) / np.square(pm.sum(axis=1)) - 0.5", "    kappa2 = 1.5 * np.square(pm).sum(axis=1) / np.square(pm).sum(axis=1) - 0.5", "C16-R3")
+V("C16", "gyration-tensor-divides-by-frames", SHP, 'return np.einsum("...ji,...jk->...ik", xyz, xyz) / traj.n_atoms', 'return np.einsum("...ji,...jk->...ik", xyz, xyz) / traj.n_frames', "C16-R3")
+V("C16", "twin-asphericity-rearranged", SHP, "    b = pm[:, 2] - (pm[:, 0] + pm[:, 1]) / 2.0", "    b = pm[:, 2] - 0.5 * pm[:, 1] - 0.5 * pm[:, 0]", None)
+V("C16", "com-not-normalised-with-selection", "mdtraj/geometry/distance.py", "        masses = np.array([traj.top.atom(i).element.mass for i in atoms_of_interest])\n        masses /= masses.sum()", "        masses = np.array([traj.top.atom(i).element.mass for i in atoms_of_interest])", "C16-R4")
+V("C16", "contacts-count-uses-first-residue-twice", CTC, "                residue_lens[pair[0]] * residue_lens[pair[1]],", "                residue_lens[pair[0]] * residue_lens[pair[0]],", "C16-R5")
+V("C16", "contacts-offset-inclusive", CTC, "            index = int(np.sum(n_atom_pairs_per_residue_pair[:i]))", "            index = int(np.sum(n_atom_pairs_per_residue_pair[: i + 1]))", "C16-R5")
+V("C16", "contacts-heavy-keeps-hydrogens", CTC, "                [atom.index for atom in residue.atoms if not (atom.element == element.hydrogen)]\n                for residue in traj.topology.residues", "                [atom.index for atom in residue.atoms if not (atom.element == element.helium)]\n                for residue in traj.topology.residues", "C16-R5")
+V("C16", "contacts-softmin-sign", CTC, "                distances[:, i] = soft_min_beta / np.log(", "                distances[:, i] = -soft_min_beta / np.log(", "C16-R5")
+V("C16", "density-conversion-constant", THP, "    conversion = 1.6605387823355087", "    conversion = 1.6605387823355087e-3", "C16-R6")
+V("C16", "rdf-shell-area-not-volume", RDFP, "    V = (4 / 3) * np.pi * (np.power(edges[1:], 3) - np.power(edges[:-1], 3))\n    norm = len(pairs) * np.sum(1.0 / traj.unitcell_volumes) * V", "    V = 4 * np.pi * (np.power(edges[1:], 2) - np.power(edges[:-1], 2))\n    norm = len(pairs) * np.sum(1.0 / traj.unitcell_volumes) * V", "C16-R7")
+V("C16", "rdf-norm-mean-volume", RDFP, "    norm = len(pairs) * np.sum(1.0 / traj.unitcell_volumes) * V\n    g_r = g_r.astype(np.float64) / norm  # From int64.", "    norm = len(pairs) * len(traj) / np.mean(traj.unitcell_volumes) * V\n    g_r = g_r.astype(np.float64) / norm  # From int64.", "C16-R7")
+V("C16", "karplus-cos-not-squared", NMRP, "    return A * np.cos(phi + phi0) ** 2.0 + B * np.cos(phi + phi0) + C", "    return A * np.cos(phi + phi0) + B * np.cos(phi + phi0) + C", "C16-R8")
+V("C16", "karplus-wrong-table", NMRP, "    J = _J3_function(phi, **J3_HN_C_coefficients[model])", "    J = _J3_function(phi, **J3_HN_CB_coefficients[model])", "C16-R8")
+V("C16", "twin-karplus-horner", NMRP, "    return A * np.cos(phi + phi0) ** 2.0 + B * np.cos(phi + phi0) + C", "    return (A * np.cos(phi + phi0) + B) * np.cos(phi + phi0) + C", None)
